@@ -369,7 +369,7 @@ structure Syn where
   alts : List (List Kind) := []      -- further complete parameter lists (second syntax of the keyword)
   suffix : Bool := false             -- may carry `_n`, `_CLASS`, `_*` on the keyword
   documented : Bool := true          -- part of the syntax summary the library documents (cards.py docstring)
-  deriving Repr
+  deriving DecidableEq, Repr
 
 open Kind in
 /-- Appendix A of DESIGN.md.  `num` marks a real-valued parameter (written as `2`, `2.0`, `.5` … see `styles`),
@@ -569,16 +569,64 @@ def bodyForms : List Form :=
 def bodyCtxs : List Ctx :=
   [{ last := "UNIT", flags := ["cell", "latt", "sfac"] }, { last := "UNIT", flags := ["cell", "latt", "sfac", "end"] }]
 
+/-! ### The header as a grammar (histories of header lines, not one fixed header)
+
+  SHELXL: `TITL CELL ZERR LATT SYMM* NEUT? SFAC+ DISP* UNIT`, where `SYMM`, `SFAC` (one line of element names, or one
+  line per element with explicit scattering factors) and `DISP` (one per element) may be REPEATED, and instructions of the
+  body (`REM`, `MORE`, `TEMP`, `SIZE` …) may already stand between LATT/SYMM/NEUT and the first SFAC.  The parser keeps a
+  memory of the header (`lastcard`, truthy attributes), so whether a line is accepted depends on the HISTORY of header
+  lines before it; the specification therefore states which slot may follow which, and the theorems quantify over every
+  header this grammar generates (any number of repetitions). -/
+
+/-- which header slot may follow a line of the given slot -/
+def Slot.next : Slot → List Slot
+  | .titl => [.cell]
+  | .cell => [.zerr]
+  | .zerr => [.latt]
+  | .latt => [.symm, .neut, .sfac]
+  | .symm => [.symm, .neut, .sfac]
+  | .neut => [.sfac]
+  | .sfac => [.sfac, .disp, .unit]
+  | .disp => [.disp, .unit]
+  | _ => []
+
+/-- after a line of this slot, body instructions may stand before the header goes on -/
+def Slot.allowsPre (s : Slot) : Bool := s == .latt || s == .symm || s == .neut
+
+/-- the contexts a body instruction meets in front of SFAC -/
+def preCtxs : List Ctx := [{ last := "ZERR", flags := ["cell", "latt"] }, { last := "SYMM", flags := ["cell", "latt"] }]
+
+/-- the context a line of slot `s` leaves behind is one in which EVERY slot that may follow is legal (so that any
+    continuation of the header the grammar allows is accepted, in particular a repetition of the same slot), body
+    instructions are legal where they may be interspersed, and `UNIT` opens the body -/
+def closedAfter (s : Slot) (c' : Ctx) : Bool :=
+  s.next.all (fun s' => s'.ctxs.contains c') && (!s.allowsPre || preCtxs.contains c') && (!(s == .unit) || bodyCtxs.contains c')
+
+/-- `Header s l`: `l` legally continues a header whose last header line was of slot `s`, and ends with `UNIT` -/
+inductive Header : Slot → List Form → Prop
+  | done : Header .unit []
+  | step {s : Slot} {e : Syn} {f : Form} {l : List Form} :
+      e ∈ syntaxTable → e.slot ∈ s.next → f ∈ e.forms → Header e.slot l → Header s (f :: l)
+  | pre {s : Slot} {e : Syn} {f : Form} {l : List Form} :
+      s.allowsPre = true → e ∈ syntaxTable → e.slot = .body → f ∈ e.forms → Header s l → Header s (f :: l)
+
+/-- a complete header: a `TITL` line followed by a legal continuation up to `UNIT` -/
+def ValidHeader (l : List Form) : Prop :=
+  ∃ e ∈ syntaxTable, ∃ f ∈ e.forms, ∃ r, e.slot = .titl ∧ l = f :: r ∧ Header .titl r
+
 /-- everything the table-driven theorems need to know about one entry of the syntax table, computed with ONE
     branch selection per keyword: the keyword is listed in `SHX_CARDS` (so the line is never taken for an atom), a
     keyword branch (not the final `else`) handles it, every legal form is accepted in every context the syntax
-    allows and in every mode, and a body line met in a body context leaves a body context behind -/
+    allows and in every mode, a body line met in a body context leaves a body context behind, a header line leaves a
+    context behind in which every slot that may follow it is legal (`closedAfter`), and a body instruction in front of
+    SFAC leaves the header context untouched -/
 def entryOk (T : Tables) (s : Syn) : Bool :=
   T.shxCodes.contains s.code &&
   match selectKw T s.code with
   | some b => b.test != .otherwise && s.slot.ctxs.all fun c => s.forms.all fun f => allModes.all fun m =>
       match runBranch T m c b f with
-      | .ok c' => !(s.slot.isBody && bodyCtxs.contains c) || bodyCtxs.contains c'
+      | .ok c' => (!(s.slot.isBody && bodyCtxs.contains c) || bodyCtxs.contains c') && closedAfter s.slot c' &&
+                  (!(s.slot == .body && preCtxs.contains c) || c' == c)
       | .error _ => false
   | none => false
 
